@@ -108,31 +108,41 @@ def _discover(m, r):
     if len(fs) != 1:
         raise AnalysisError("role QUEUEFACTORY: callee not resolved")
     r.queue_factory = next(iter(fs))
-    # COUNTTABLE: subscript-decremented in NODECB
-    decs = [n for n in r.nodecb.own_nodes() if isinstance(n, ast.AugAssign) and isinstance(n.op, ast.Sub)
-            and isinstance(n.target, ast.Subscript) and isinstance(n.target.value, ast.Name)]
-    names = {d.target.value.id for d in decs}
-    if len(names) != 1:
-        raise AnalysisError(f"role COUNTTABLE: expected one table decremented by subscript in {r.nodecb.qualname}, found {sorted(names)}")
-    r.count_name = names.pop()
-    r.decs = decs
-    # PREP: the call whose result is destructured into the count table
-    cb = [b for b in e.bindings.get(r.count_name, []) if b[0] == "assign"]
-    if len(cb) != 1 or not isinstance(cb[0][1], ast.Call) or len(cb[0][2]) != 1:
-        raise AnalysisError("role PREP: the count table must come from destructuring one call result")
-    r.prep_call = cb[0][1]
-    r.count_index = cb[0][2][0]
-    fs = m.callee_funcs(e, r.prep_call)
-    if len(fs) != 1:
-        raise AnalysisError("role PREP: callee not resolved")
-    r.prep = next(iter(fs))
-    # names bound from the same destructuring
-    r.prep_names = {}
-    for nm, bs in e.bindings.items():
-        for b in bs:
-            if b[0] == "assign" and b[1] is r.prep_call and len(b[2]) == 1:
-                r.prep_names[b[2][0]] = nm
-    prep_indices(m, r)
+    # The readiness bookkeeping (roles COUNTTABLE / PREP) is optional: an engine that keeps it another way is still analysed by every
+    # rule that does not need it, and the behaviour these roles are premises of is decided by evaluating the engine as a whole
+    # (engineeval); r.bookkeeping_error says why the premises could not be located.
+    r.count_name, r.decs, r.prep, r.prep_call, r.prep_names, r.bookkeeping_error = None, [], None, None, {}, None
+    try:
+        # COUNTTABLE: subscript-decremented in NODECB
+        decs = [n for n in r.nodecb.own_nodes() if isinstance(n, ast.AugAssign) and isinstance(n.op, ast.Sub)
+                and isinstance(n.target, ast.Subscript) and isinstance(n.target.value, ast.Name)]
+        names = {d.target.value.id for d in decs}
+        if len(names) != 1:
+            raise AnalysisError(f"role COUNTTABLE: expected one table decremented by subscript in {r.nodecb.qualname}, found {sorted(names)}")
+        r.count_name = names.pop()
+        r.decs = decs
+        # PREP: the call whose result is destructured into the count table
+        cb = [b for b in e.bindings.get(r.count_name, []) if b[0] == "assign"]
+        if len(cb) != 1 or not isinstance(cb[0][1], ast.Call) or len(cb[0][2]) != 1:
+            raise AnalysisError("role PREP: the count table must come from destructuring one call result")
+        r.prep_call = cb[0][1]
+        r.count_index = cb[0][2][0]
+        fs = m.callee_funcs(e, r.prep_call)
+        if len(fs) != 1:
+            raise AnalysisError("role PREP: callee not resolved")
+        r.prep = next(iter(fs))
+        # names bound from the same destructuring
+        r.prep_names = {}
+        for nm, bs in e.bindings.items():
+            for b in bs:
+                if b[0] == "assign" and b[1] is r.prep_call and len(b[2]) == 1:
+                    r.prep_names[b[2][0]] = nm
+        prep_indices(m, r)
+    except AnalysisError as e_:
+        r.bookkeeping_error = str(e_)
+        r.prep_located = False
+    else:
+        r.prep_located = True
     # FIRSTERR: raised by ENGINE
     raised = [n for n in e.own_nodes() if isinstance(n, ast.Raise) and isinstance(n.exc, ast.Name)]
     raised = [n for n in raised if n.exc.id in r.nodecb.nonlocals]
@@ -240,8 +250,26 @@ def rule_callbacks_only_via_engine(ctx, rid, r, callbacks):
 
 
 # ------------------------------------------------------------------------------------------------ A2
+def evaluated_instead(ctx, rid, r, what, aspects):
+    """A premise about the readiness bookkeeping cannot be located in this engine (r.bookkeeping_error).  The behaviour it is a
+    premise of is decided by the evaluation of the engine as a whole; this obligation records that and fails closed when the
+    evaluation itself could not be done."""
+    from .engineeval import evaluate_engine, rankers_of
+    m = ctx.model
+    n_cfg, n_eval, bad, err = evaluate_engine(m, r, rankers_of(m, r))
+    if err:
+        raise AnalysisError(f"{r.bookkeeping_error}; and the engine could not be evaluated as a whole: {err}")
+    devs = [b for b in bad if b[0] == "run" and b[1] in aspects]
+    ctx.ob(rid, f"{r.engine.short}/{what}-decided-by-evaluation", not devs, loc(r.engine),
+           f"the bookkeeping is not in the shape this premise describes ({r.bookkeeping_error}); what the premise is for - "
+           f"{', '.join(aspects)} - holds on all {n_eval} evaluations of the engine as a whole" if not devs else devs[0][2])
+
+
 def rule_atomic_counter(ctx, rid, r):
     m = ctx.model
+    if r.count_name is None:
+        # no subscript-decremented counter table: the role-free form of the rule
+        return rule_shared_state_atomic(ctx, rid, r.engine)
     cb = r.nodecb
     mod = cb.module
     locks = lock_withs(m, cb)
@@ -784,6 +812,8 @@ def prep_classes(m, prep):
 
 def rule_counting_agreement(ctx, rid, r, rid_initial=None):
     m = ctx.model
+    if not r.prep_located:
+        return evaluated_instead(ctx, rid, r, "counting-agreement", ("once", "order", "complete"))
     prep = r.prep
     info, roles, tables = prep_classes(m, prep)
     ret = info["ret"]
@@ -892,6 +922,8 @@ def rule_initial_ready_set(ctx, rid, r):
     """The queue factory is seeded with the element of PREP's result that holds the zero-predecessor nodes."""
     m = ctx.model
     e = r.engine
+    if not r.prep_located:
+        return evaluated_instead(ctx, rid, r, "initial-ready-set", ("order", "complete"))
     init_name = r.prep_names.get(r.initial_index)
     call = r.queue_factory_call
     used = [a for a in call.args if is_name(a, init_name)] + [k.value for k in call.keywords if is_name(k.value, init_name)]
@@ -1757,7 +1789,8 @@ def rule_cycle_check_first(ctx, rid, r):
     if not ok:
         return
     cn = set(g.of(stmt_of(e.module, checks[0])))
-    targets = [(st_, "thread creation") for st_ in lifecycle(m, r).start_stmts] + [(stmt_of(e.module, r.prep_call), "node preparation")]
+    targets = [(st_, "thread creation") for st_ in lifecycle(m, r).start_stmts] + \
+        ([(stmt_of(e.module, r.prep_call), "node preparation")] if r.prep_call is not None else [])
     for target, what in targets:
         for tn in g.of(target):
             if tn.kind in ("with_exit",):
